@@ -174,6 +174,44 @@ func (w *Writer) header(fmtv uint8, m Msg, tsField uint32, st *csState) []byte {
 	return out
 }
 
+// EncodeChunks serialises one message and returns its chunks separately (each with its chunk header),
+// so that a caller can interleave the chunks of messages carried on different chunk streams.
+func (w *Writer) EncodeChunks(m Msg) [][]byte {
+	whole := w.Encode(m)
+	// re-split: the first chunk is header + min(len, chunk size) bytes; continuation chunks are
+	// basic header (+ extended timestamp) + payload
+	st := w.cs[m.Csid]
+	bh := len(basicHeader(0, m.Csid))
+	contHdr := bh
+	if st.ext {
+		contHdr += 4
+	}
+	n := len(m.Payload)
+	first := n
+	if first > w.ChunkSize {
+		first = w.ChunkSize
+	}
+	nCont := 0
+	if n > first {
+		nCont = (n - first + w.ChunkSize - 1) / w.ChunkSize
+	}
+	firstHdr := len(whole) - n - nCont*contHdr
+	var out [][]byte
+	out = append(out, whole[:firstHdr+first])
+	rest := whole[firstHdr+first:]
+	left := n - first
+	for left > 0 {
+		c := left
+		if c > w.ChunkSize {
+			c = w.ChunkSize
+		}
+		out = append(out, rest[:contHdr+c])
+		rest = rest[contHdr+c:]
+		left -= c
+	}
+	return out
+}
+
 // SetChunkSizeMsg builds the protocol control message announcing a new chunk size.
 func SetChunkSizeMsg(n int) Msg {
 	var p [4]byte
@@ -308,6 +346,7 @@ func (r *Reader) tryChunk() (*Msg, int, error) {
 		tsField = binary.BigEndian.Uint32(b[i:])
 		i += 4
 	}
+	havePartial := len(st.partial)
 	if !st.inMsg {
 		// first chunk of a message
 		switch fmtv {
@@ -322,25 +361,28 @@ func (r *Reader) tryChunk() (*Msg, int, error) {
 			// itself; real encoders, and the one here, only use it after format 1/2)
 			ns.ts = st.ts + st.delta
 		}
-		ns.partial = nil
+		havePartial = 0
 	} else if fmtv != 3 {
 		return nil, 0, fmt.Errorf("csid %d: format-%d chunk inside a message", csid, fmtv)
 	}
-	need := int(ns.length) - len(ns.partial)
+	need := int(ns.length) - havePartial
 	if need > r.ChunkSize {
 		need = r.ChunkSize
 	}
 	if len(b) < i+need {
 		return nil, 0, errNeedMore
 	}
-	ns.partial = append(ns.partial[:len(ns.partial):len(ns.partial)], b[i:i+need]...)
+	// commit
+	part := st.partial[:havePartial]
+	part = append(part, b[i:i+need]...)
 	i += need
+	ns.partial = part
 	ns.has = true
-	ns.inMsg = len(ns.partial) < int(ns.length)
+	ns.inMsg = len(part) < int(ns.length)
 	*st = ns
 	if !st.inMsg {
-		m := &Msg{Type: st.typ, Msid: st.msid, Ts: st.ts, Csid: csid, Payload: st.partial}
-		st.partial = nil
+		m := &Msg{Type: st.typ, Msid: st.msid, Ts: st.ts, Csid: csid, Payload: append([]byte(nil), st.partial...)}
+		st.partial = st.partial[:0]
 		return m, i, nil
 	}
 	return nil, i, nil
